@@ -307,6 +307,13 @@ func (e *Exec) envPatternIntrinsic(fn *ssa.Function, name string) Intrinsic {
 			return e.runBody(st, fn, args, depth)
 		}
 	}
+	// text rendering of protobuf messages (reflection based): an opaque string, only ever used for events and logs
+	switch name {
+	case "github.com/cosmos/gogoproto/proto.CompactTextString", "github.com/cosmos/gogoproto/proto.MarshalTextString":
+		return func(e *Exec, st *State, fn *ssa.Function, args []Value, depth int) []Outcome {
+			return ret1(st, e.freshOpaqueStr("prototext"))
+		}
+	}
 	// generated (*T).Marshal / (*T).Unmarshal of protobuf messages
 	if fn.Signature.Recv() != nil && (fn.Name() == "Marshal" || fn.Name() == "Unmarshal") {
 		rt := fn.Signature.Recv().Type()
